@@ -299,19 +299,39 @@ def r12_3(ctx):
     extra = sorted(set(extra))
     ctx.check(not extra, "progress:Task", "writers of finished_time", "rich/progress.py", f"finished_time written only by {sorted(set(writers))}",
               f"finished_time is written outside Progress/Task or without the lock: {extra}")
-    # Task._reset clears samples and finish time
-    r = ctx.repo.fn("progress:Task._reset")
-    src = norm(r.node)
-    ctx.shape("self._progress.clear()" in src and "self.finished_time = None" in src, r.fq, "_reset body", r.where, "_reset clears samples and finished_time",
-              "Task._reset no longer clears both the speed samples and finished_time (finish time must not stay fixed across a total change / reset)")
-    # update(): total change resets
+    # a total change un-finishes the task: in Progress.update the branch that stores the new total clears finished_time on every
+    # path - by a store of None, or through a Task method all of whose paths store None to self.finished_time (Task._reset)
+    task_cls = ctx.repo.cls("progress:Task")
+
+    def clears_ft(method_name) -> bool:
+        h = task_cls.method(method_name)
+        if h is None:
+            return False
+        gh = cfgmod.build(h.node)
+        clr = {nd.id for nd in gh.stmt_nodes() if nd.kind == "stmt" and isinstance(nd.stmt, ast.Assign) and any(norm(t_) == f"{h.params[0]}.finished_time" for t_ in nd.stmt.targets) and norm(nd.stmt.value) == "None"}
+        return bool(clr) and gh.exit not in gh.reach([gh.entry], avoid=clr)
     u = ctx.repo.fn("progress:Progress.update")
-    okr = False
-    for x in walk_local(u.node):
-        if isinstance(x, ast.If) and "total is not None" in norm(x.test):
-            body = " ; ".join(norm(b) for b in x.body)
-            okr = "._reset()" in body or ".finished_time = None" in body
-    ctx.check(okr, u.fq, "if total is not None: ... _reset()", u.where, "changing the total resets the recorded finish time", "update(total=...) no longer resets finished_time: a finished task keeps its old finish time under a new total")
+    gu = cfgmod.build(u.node)
+    tstores = [nd for nd in gu.stmt_nodes() if nd.kind == "stmt" and isinstance(nd.stmt, ast.Assign) and any(isinstance(t_, ast.Attribute) and t_.attr == "total" for t_ in nd.stmt.targets)]
+    ctx.floor(len(tstores), 1, "stores of a new total in Progress.update")
+    for nd in tstores:
+        good_u = set()
+        relied = []
+        for x in gu.stmt_nodes():
+            if x.kind != "stmt" or x.stmt is None:
+                continue
+            if isinstance(x.stmt, ast.Assign) and any(isinstance(t_, ast.Attribute) and t_.attr == "finished_time" for t_ in x.stmt.targets) and norm(x.stmt.value) == "None":
+                good_u.add(x.id)
+            for c_ in ast.walk(x.stmt):
+                if isinstance(c_, ast.Call) and isinstance(c_.func, ast.Attribute) and task_cls.method(c_.func.attr) is not None and c_.func.attr.startswith("_"):
+                    if clears_ft(c_.func.attr):
+                        good_u.add(x.id)
+                    else:
+                        relied.append(c_.func.attr)
+        w = gu.must_pass(nd.id, good_u, {gu.exit}) if good_u else [nd.id]
+        ctx.check(w is None, u.fq, short(nd.stmt), f"{u.module.relpath}:{nd.lineno}", "a changed total clears the recorded finish time on every path",
+                  f"after `{short(nd.stmt)}` a path leaves update() without clearing finished_time" + (f" (it calls Task.{relied[0]}(), which does not store None to finished_time on every path)" if relied else "") +
+                  ": a task that had finished keeps its old finish time under the new total - it stays `finished` with completed < total, and a later real finish keeps the stale time")
 
 
 def r12_4(ctx):
